@@ -8,7 +8,7 @@ from .. import core, gen, hist, model
 from ..session import Outcome
 from . import PropBase, steps_with_ids
 
-FAULTS = ("twin", "clear", "shrink", "zone", "clock", "stack", "clear_typing")
+FAULTS = ("twin", "clear", "shrink", "zone", "clock", "stack", "clear_typing", "exhaust_scan")
 
 
 class C01(PropBase):
@@ -65,6 +65,10 @@ class C01(PropBase):
             step = {"op": "roundtrip", "t": t, "v": v, "mod": rng.choice(mods), "amb": _dedupe(trace)}
             if "stack" in sw and rng.random() < 0.3:
                 step["depth"] = rng.randint(1, 40)
+            if "exhaust_scan" in sw and rng.random() < 0.2:
+                # the same object is first offered from every stack depth at which marshalling cannot
+                # complete (RecursionError one frame further in each time), then converted normally
+                step["scan"] = True
             mid = []
             for k in fk:
                 if rng.random() < sw[k]:
